@@ -11,6 +11,7 @@
 From Coq Require Import List Arith Bool.
 Import ListNotations.
 From ZV.Conc Require Import Sched PoolModel PoolLemmas PoolInvDefs PoolInv3 PoolInv4 PoolInv9 PoolTheorems PoolLive PoolExamples.
+From ZV.Conc Require Import PoolSafety PoolTermDefs PoolTermStep PoolTerm PoolFair PoolFairEx PoolLimit.
 
 (* the circular buffer agrees with the FIFO list of accepted-but-not-started jobs (both queueSize > 1 and the
    hand-off pool queueSize = 1); queueEmpty is exact *)
@@ -106,3 +107,94 @@ Theorem pool_lost_wakeup_refuted :
     stuck (mkcfg false progs bodies) s = true /\ self_blocked s = false.
 Proof. exact lost_wakeup_refuted. Qed.
 Print Assumptions pool_lost_wakeup_refuted.
+
+(* ---------------------------------------------------------------------------------------------------------
+   Liveness (ZV.Conc.PoolTermDefs / PoolTermStep / PoolTerm / PoolFair).
+   [weights_ok progs n bodies JW]: JW j pays for one execution of job j including everything the job posts; such a JW
+   exists whenever the posting relation between job ids is not recursive ([dag]).  [mu] is a natural-number potential of
+   the whole state (steps every thread can still take + the price of every wake-up it can still cause). *)
+
+(* every step of every thread strictly decreases the potential (repaired and unrepaired code) *)
+Theorem pool_step_decreases_potential : forall cfg P tid w s s',
+  TermInv cfg P s -> 2 * wT P <= wB P -> WOK cfg P -> step cfg tid w s = Some s' -> mu cfg P s' < mu cfg P s.
+Proof. exact mu_dec. Qed.
+Print Assumptions pool_step_decreases_potential.
+
+(* no livelock: EVERY schedule performs at most [mu init] steps (picks of disabled threads do not count); in particular no
+   sleeper is woken and sent back to sleep for ever, POOL_joinJobs / POOL_add / POOL_free cannot spin *)
+Theorem pool_steps_bounded : forall fx bodies progs n q JW sched,
+  progs <> [] -> 1 <= n -> weights_ok progs n bodies JW ->
+  let cfg := mkcfg fx progs bodies in
+  nsteps cfg sched (init progs n q) <= mu cfg (run_parm progs n JW) (init progs n q).
+Proof. exact steps_bounded. Qed.
+Print Assumptions pool_steps_bounded.
+
+Theorem pool_weights_exist : forall progs n bodies, dag bodies -> exists JW, weights_ok progs n bodies JW.
+Proof. exact dag_weights. Qed.
+Print Assumptions pool_weights_exist.
+
+(* a state in which no thread can run is: everything terminated, POOL_free returned, every accepted job started and
+   finished exactly once - or a job is blocked in a blocking POOL_add on its own pool (before POOL_free) *)
+Theorem pool_complete_run : forall bodies progs n q sched,
+  progs <> [] -> 1 <= n ->
+  let cfg := mkcfg true progs bodies in
+  let s := reach true bodies progs n q sched in
+  enabled_list cfg s = [] ->
+  (all_done s = true /\ pending (sg s) = [] /\ running s = [] /\
+   forall k, k < next (sg s) -> cnt k (done (sg s)) = 1 /\ cnt k (started (sg s)) = 1)
+  \/ (self_blocked s = true /\ shutdown (sp s) = false).
+Proof. exact complete_run. Qed.
+Print Assumptions pool_complete_run.
+
+(* jobs that post with POOL_tryAdd only can never wedge the pool *)
+Theorem pool_tryonly_never_self_blocked : forall fx bodies progs n q sched,
+  tryonly bodies -> self_blocked (reach fx bodies progs n q sched) = false.
+Proof. exact tryonly_never_self_blocked. Qed.
+Print Assumptions pool_tryonly_never_self_blocked.
+
+(* a scheduler that picks every thread id below the thread bound again and again never stalls *)
+Theorem pool_fair_scheduler_never_stalls : forall fx bodies progs n q sigma,
+  progs <> [] -> 1 <= n -> fair (max_threads progs n) sigma -> non_stalling fx bodies progs n q sigma.
+Proof. exact fair_non_stalling. Qed.
+Print Assumptions pool_fair_scheduler_never_stalls.
+
+(* LIVENESS: under every infinite schedule that does not stall for ever (whenever some thread can run, some later pick can
+   run - implied by weak fairness and by the fairness above) the run reaches, after finitely many picks, a state where
+   everything has terminated and every accepted job has been executed exactly once (or a job self-blocked) *)
+Theorem pool_non_stalling_run_completes : forall bodies progs n q JW sigma,
+  progs <> [] -> 1 <= n -> weights_ok progs n bodies JW ->
+  non_stalling true bodies progs n q sigma ->
+  exists i, let s := state_at true bodies progs n q sigma i in
+    (all_done s = true /\ pending (sg s) = [] /\ running s = [] /\
+     forall k, k < next (sg s) -> cnt k (done (sg s)) = 1 /\ cnt k (started (sg s)) = 1)
+    \/ (self_blocked s = true /\ shutdown (sp s) = false).
+Proof. exact non_stalling_run_completes. Qed.
+Print Assumptions pool_non_stalling_run_completes.
+
+Theorem pool_fair_run_completes : forall bodies progs n q JW sigma,
+  progs <> [] -> 1 <= n -> weights_ok progs n bodies JW -> tryonly bodies ->
+  fair (max_threads progs n) sigma ->
+  exists i, let s := state_at true bodies progs n q sigma i in
+    all_done s = true /\ pending (sg s) = [] /\ running s = [] /\
+    forall k, k < next (sg s) -> cnt k (done (sg s)) = 1 /\ cnt k (started (sg s)) = 1.
+Proof. exact fair_run_completes. Qed.
+Print Assumptions pool_fair_run_completes.
+
+(* ---------------------------------------------------------------------------------------------------------
+   Thread limit (POOL_create "at most numThreads threads", POOL_resize "expands or shrinks the number of threads") *)
+
+(* the only step that raises numThreadsBusy is a worker's pop, by one, and only while fewer than threadLimit threads are
+   busy: after a shrink no job is STARTED beyond the new limit (jobs already running finish normally) *)
+Theorem pool_thread_limit_respected : forall cfg tid w s s',
+  step cfg tid w s = Some s' -> busy (sp s) < busy (sp s') ->
+  busy (sp s') = S (busy (sp s)) /\ busy (sp s') <= limit (sp s') /\ limit (sp s') = limit (sp s) /\
+  exists th, nth_error (st s) tid = Some th /\ t_pc th = WLock.
+Proof. exact limit_respected. Qed.
+Print Assumptions pool_thread_limit_respected.
+
+Theorem pool_busy_le_capacity : forall bodies progs n q sched,
+  progs <> [] -> 1 <= n ->
+  let s := reach true bodies progs n q sched in
+  busy (sp s) <= cap (sp s) /\ 1 <= limit (sp s) <= cap (sp s).
+Proof. exact busy_le_capacity. Qed.
+Print Assumptions pool_busy_le_capacity.
